@@ -329,7 +329,9 @@ class RandomFile:
             elif k < 0.7:
                 j = rng.choice(["int junk_a[3]; // #endif in a comment", "/* #else|#endif|*/ int junk_b;",
                                 "const char *junk_c = \"#endif\";", "int junk_d; /* #if 1 */",
-                                "  int junk_e = '#';"])
+                                "  int junk_e = '#';", "/** doc **/ int junk_f;", "/**/ /***/ /****/ int junk_g;",
+                                "/*****| * #else| * #endif| ****/", "/* a *//* b **//** c */ int junk_h;",
+                                "int junk_i = 6/*c*/ /3; // #endif /*"])
                 for ln in j.split("|"):
                     self.emit(ln)
                 self.features.add("junk:text")
